@@ -246,7 +246,22 @@ func info(n int, r *hx.RNG) []byte {
 }
 
 func hostileBGP(r *hx.RNG, p bmpx.Peer) ([]byte, string) {
-	switch r.Intn(14) {
+	switch r.Intn(17) {
+	case 14:
+		// NLRI without NEXT_HOP: the attribute is retyped to an unknown optional one
+		b := bmpx.UpdateForV(p, nil, []bmpx.NLRI{bmpx.Pfx4(r.Intn(4), bmpx.PathID(p, false, r))}, "plain")
+		for _, o := range bmpx.AttrLenOffsets(b) {
+			if b[o-1] == 3 {
+				b[o-2], b[o-1] = 0xc0, 200
+			}
+		}
+		return b, "rm_missing_nexthop"
+	case 15, 16:
+		// IPv6 prefix with host bits set
+		x := bmpx.Pfx6(r.Intn(3), bmpx.PathID(p, true, r))
+		x.Len = 44
+		x.Addr[5] |= 0x0f
+		return bmpx.UpdateForV(p, nil, []bmpx.NLRI{x}, bmpx.PickVariant(r)), "rm_hostbits6"
 	case 11, 12, 13:
 		// one path attribute's length off by a little (the value then overlaps its neighbours)
 		var an []bmpx.NLRI
